@@ -251,7 +251,7 @@ def coercion():
     ANN = {"int": int, "float": float, "str": str, "bool": bool, "list": list[str], "optional_int": Optional[int]}
     VALS = {"digits": "12", "word": "abc", "int": 3, "float": 1.5, "true_s": "TRUE", "yes": "yes", "zero_s": "0", "csv": "a, b", "bool": True,
             "none": None, "float_s": "1.5e3", "nan_s": "nan", "list": ["x"], "empty": "",
-            "big_s": "9007199254740993", "frac_s": "42.7", "neg_s": " -7 "}
+            "big_s": "9007199254740993", "frac_s": "42.7", "neg_s": " -7 ", "enabled_s": "enabled", "on_s": "on", "no_s": " No "}
 
     def h(c):
         restore()
@@ -283,6 +283,15 @@ def coercion():
                 except (ValueError, ZeroDivisionError):
                     same_value = False
                 c.check("C11.g-value", same_value, {"what": "string-to-int coercion changed the numeric value", **info})
+            if base is bool and isinstance(v0, str) and type(v1) is bool:
+                # a string may become a bool only with the meaning the schema library itself gives that spelling;
+                # a spelling it does not know must be left alone (and then fails validation) rather than invented
+                from pydantic import TypeAdapter
+                try:
+                    ref = TypeAdapter(bool).validate_python(v0.strip().lower())
+                except Exception:  # noqa
+                    ref = None
+                c.check("C11.g-value", ref is not None and v1 is ref, {"what": "string-to-bool coercion invented or inverted a value", "pydantic_reading": ref, **info})
         else:
             c.check("C11.g", True)
             c.check("C11.g-log", coer == [], {"what": "coercion recorded without a change", **info})
